@@ -477,7 +477,11 @@ def check_dict_feedback(chk, rng):
         if via_map:
             lines.append("n 5 map g=0 in=1")
             src = 5
-        lines += ["n 2 dfb", "n 3 drec in=%d" % src, "n 4 drec in=2", "bind 2 %d" % src, "endgraph", "run"]
+        if k % 3 == 2:
+            # a set-shaped payload: the key set of the dictionary (added / removed elements only; removal-only deltas)
+            lines += ["n 6 skeys in=%d" % src, "n 2 sfb", "n 3 srec in=6", "n 4 srec in=2", "bind 2 6", "endgraph", "run"]
+        else:
+            lines += ["n 2 dfb", "n 3 drec in=%d" % src, "n 4 drec in=2", "bind 2 %d" % src, "endgraph", "run"]
         scns.append(("\n".join(lines), horizon + 1))
     traces = hg.run_driver("engine", [s for s, _ in scns])
     items = []
